@@ -19,7 +19,7 @@ for p in props:
         "replay_cmd_template": "./check %s --replay {path}" % pid,
         "engine": "lean4-proof+correspondence",
         "level_claimed": {"category": "proof", "text": o.get("level_text", ""), "design_ref": "DESIGN.md §4 " + pid},
-        "level_note": o.get("level_note", "Lean 4.33 kernel; axioms propext/Classical.choice/Quot.sound only; hand-written model tied to /repo by the regenerated fact file and the Go-harness-vs-Lean-oracle correspondence run; see evidence trusted_base"),
+        "level_note": o.get("level_note", "Trusted: Lean 4.33 kernel (axioms propext/Classical.choice/Quot.sound only, audited every run); the go/ast fact extractor (fails closed); the Go harness and the Lean oracle's line protocol. Hand-written model, tied to /repo on every run by the regenerated facts (Generated.lean) and the differential run. " + ("Theorem hypotheses: " + "; ".join(o.get("assumptions", [])) + ". " if o.get("assumptions") else "") + ("Partial: " + o["partial"] + ". " if o.get("partial") else "") + "Modelled, not verified: " + "; ".join(o.get("modelled_not_verified", [])[:4]) + "."),
         "technique": o.get("technique", "Lean 4 theorem over a hand-written model + differential correspondence with the implementation"),
     })
 m = {
